@@ -123,3 +123,21 @@ Proof.
   split; [vm_compute; reflexivity|]. split; [apply valid_b_iff; vm_compute; reflexivity|].
   repeat split; vm_compute; reflexivity.
 Qed.
+
+(* history: what the engine reported before the three repairs (fix: commits in the repository copy),
+   judged by the checker. F5: partition rows with ids 1,3,5,6 (ids 2,4 belong to another partition),
+   PATTERN (A B) without DEFINE, SKIP PAST LAST ROW: overlapping matches. F21: PATTERN (A (B C)?) on
+   classes a b d: the match on row 1 was lost (also for WITHIN: A+ WITHIN 5 on ts 1 2 10 11). F22:
+   PATTERN (A B C | B) on a b c: (2,2) was reported instead of (1,3). *)
+Definition ex_defs4 : list cdef := [mkDef 1 0; mkDef 2 0; mkDef 4 0; mkDef 8 0].
+Example C15_asis_witnesses :
+  chk_C15 (mkCfg (desugar (SSeq (SLit 0) (SLit 1))) [mkDef 31 0; mkDef 31 0] SkPast 3600000000000)
+          [mkCRow 1 0 0 1; mkCRow 3 0 2 3; mkCRow 5 0 1 5; mkCRow 6 0 2 6]
+          [(1, 1%Z, 3%Z, 2); (2, 3%Z, 5%Z, 2); (3, 5%Z, 6%Z, 2)] = Some ClSkip
+  /\ chk_C15 (mkCfg (desugar (SSeq (SLit 0) (SRep 0 (Some 1) (SSeq (SLit 1) (SLit 2))))) ex_defs4 SkPast 3600000000000)
+          [mkCRow 1 0 0 1; mkCRow 2 1 1 2; mkCRow 3 3 2 3] [] = Some ClOmitted
+  /\ chk_C15 (mkCfg (desugar (SRep 1 None (SLit 0))) ex_defs4 SkPast 5)
+          [mkCRow 1 0 0 1; mkCRow 2 0 1 2; mkCRow 3 0 2 10; mkCRow 4 3 0 11] [(1, 3%Z, 3%Z, 1)] = Some ClOmitted
+  /\ chk_C15 (mkCfg (desugar (SAlt (SSeq (SSeq (SLit 0) (SLit 1)) (SLit 2)) (SLit 1))) ex_defs4 SkPast 3600000000000)
+          [mkCRow 1 0 0 1; mkCRow 2 1 1 2; mkCRow 3 2 2 3] [(1, 2%Z, 2%Z, 1)] = Some ClOmitted.
+Proof. repeat split; vm_compute; reflexivity. Qed.
